@@ -1623,6 +1623,25 @@ type rangeIter struct {
 	Str  *Term
 	Pos  *Term
 	ID   string
+	Vis  string // ghost key of the visited-set (Go map ranges)
+}
+
+// mapRangeOrdinal: 1-based position of a range-over-map statement among those of its function
+func mapRangeOrdinal(x *ssa.Range) int {
+	n := 0
+	for _, b := range x.Parent().Blocks {
+		for _, in := range b.Instrs {
+			if r, ok := in.(*ssa.Range); ok {
+				if _, isMap := under(r.X.Type()).(*types.Map); isMap {
+					n++
+				}
+				if r == x {
+					return n
+				}
+			}
+		}
+	}
+	return n
 }
 
 func (fr *Frame) doRange(st *State, x *ssa.Range) {
@@ -1634,8 +1653,13 @@ func (fr *Frame) doRange(st *State, x *ssa.Range) {
 			it.M = fr.mapRefCell(st, b) // the entries at the start of the loop: what the enumeration ranges over
 		}
 		fr.regs[x] = it
-		// ghost set of the keys handed out so far (for invariants: visited(k)); one Go map range at a time
-		st.ghost["range.visited"] = Scalar{SetEmpty()}
+		// ghost set of the keys handed out so far, one per map-range statement of the function
+		// (invariants: visited(k) for the first, visited(k, n) for the n-th in source order)
+		it.Vis = fmt.Sprintf("range.visited.%d", mapRangeOrdinal(x))
+		st.ghost[it.Vis] = Scalar{SetEmpty()}
+		if fr.dry != nil {
+			fr.dry.ghosts[it.Vis] = true
+		}
 	case Scalar:
 		fr.regs[x] = &rangeIter{Str: b.T, Pos: Int(0), ID: st.eng.fresh("iter")}
 	default:
@@ -1686,7 +1710,7 @@ func (fr *Frame) doNext(st *State, x *ssa.Next, b *ssa.BasicBlock, i int) bool {
 		fail("%s: %v", fr.fn, err)
 	}
 	st.assume(Implies(okT, has))
-	if vis, okv := st.ghost["range.visited"].(Scalar); okv {
+	if vis, okv := st.ghost[it.Vis].(Scalar); okv && it.Vis != "" {
 		if idx, oki := st.keyIndex(k); oki {
 			st.assume(Implies(okT, Not(SetHas(vis.T, idx))))
 			// exhausted: every entry has been visited
@@ -1706,9 +1730,9 @@ func (fr *Frame) doNext(st *State, x *ssa.Next, b *ssa.BasicBlock, i int) bool {
 					}
 				}
 			}
-			st.ghost["range.visited"] = Scalar{SetAdd(vis.T, idx)}
+			st.ghost[it.Vis] = Scalar{SetAdd(vis.T, idx)}
 			if fr.dry != nil {
-				fr.dry.ghosts["range.visited"] = true
+				fr.dry.ghosts[it.Vis] = true
 			}
 		}
 	}
